@@ -480,18 +480,9 @@ def gen_valid(r):
 _SYMBOL_TEXT = None
 
 
-def gen_sentence(r, seed, idx):
-    """Hook for harness.grammar_gen.sentences(seed, n, max_tokens) (token-kind sequences of the real
-    grammar, written by the grammar builder).  Returns text or None when the module is not there."""
-    try:
-        from . import grammar_gen  # noqa
-    except Exception:
-        return None
-    try:
-        sents = grammar_gen.sentences(hash((seed, idx)) & 0x7fffffff, 1, 80)
-        kinds = list(sents[0])
-    except Exception:
-        return None
+def render_sentence(r, kinds):
+    """Token-kind sequence of the real grammar (harness.grammar_gen.sentences, TLC generated) -> text,
+    with pooled identifiers so that references sometimes resolve."""
     out, ind, line = [], 0, []
     for k in kinds:
         if k in ('"\\n"', "eol", "\\n"):
